@@ -568,11 +568,37 @@ def do_check(pid, tier, replay):
                     known_lines.append(line)
             else:
                 unlisted.append(i)
+        # A failure of the property's oracle that comes from the harness's own timing on an overloaded machine
+        # (a call "did not return" within the hang timeout, an event seen one step late) does not reproduce when
+        # the case runs alone: a small number of failing cases is re-run alone three times each; a case that is
+        # clean all three times is recorded as unstable and not reported. Deterministic failures are unaffected.
+        unstable_spec = []
+        if unlisted and len(unlisted) <= 6 and not replay and judge_ok:
+            keep = []
+            for i in unlisted:
+                rargs = uniq[i].get("replay")
+                if rargs is None or uniq[i].get("id") == "driver-crash":
+                    keep.append(i)
+                    continue
+                clean = 0
+                for _ in range(3):
+                    rr = run_and_judge(prop, tier, seed, workdir, "recheck", list(rargs))
+                    if rr["uniq"] and not rr["verdict"]["error"] and not rr["verdict"]["bad_agree"] and not rr["verdict"]["bad_spec"] \
+                            and rr["driver_rc"] == 0:
+                        clean += 1
+                    else:
+                        break
+                if clean == 3:
+                    unstable_spec.append(uniq[i].get("id"))
+                else:
+                    keep.append(i)
+            unlisted = keep
         if unlisted:
             c = smallest(uniq, unlisted)
             path = report_case(c, "spec", True)
             violations.append((path, ""))
         disagree = [i for i in v["bad_agree"] if i not in v["bad_spec"]]
+        disagree += [i for i in v["bad_agree"] if i in v["bad_spec"] and uniq[i].get("id") in unstable_spec]
         # disagreements on inputs covered by a known finding do not count
         disagree = [i for i in disagree if not any(matches_finding(uniq[i], f) for f in kfs)]
         # A disagreement (the oracle of the property accepts the observation, the model predicted another one)
@@ -674,8 +700,8 @@ def do_check(pid, tier, replay):
         )
         if known_lines:
             ev["coverage"]["known_findings_seen"] = known_lines
-        if unstable:
-            ev["coverage"]["unstable_under_load"] = unstable
+        if unstable or unstable_spec:
+            ev["coverage"]["unstable_under_load"] = unstable + unstable_spec
         if not replay:
             os.makedirs(os.path.join(ROOT, "evidence"), exist_ok=True)
             with open(os.path.join(ROOT, "evidence", pid + ".json"), "w") as f:
